@@ -531,7 +531,7 @@ def compress_with_reuse(rng, steps, arity, mandatory_labels, p_reuse=0.5):
         for en in sorted(span_at_start.get(i, []), reverse=True):
             key = tuple(steps[i:en + 1])
             if key in saved and rng.random() < p_reuse:
-                toks.append(('R', saved[key]))
+                toks.append(('R', rng.choice(saved[key])))       # any of the marks of this expression
                 i = en + 1
                 done = True
                 break
@@ -540,13 +540,14 @@ def compress_with_reuse(rng, steps, arity, mandatory_labels, p_reuse=0.5):
         toks.append(('L', table.index(steps[i]) + 1))
         # does a span END here that we may want to save?
         for (st, en) in spans:
-            if en == i and en > st:
+            if en == i and (en > st or rng.random() < 0.1):
                 key = tuple(steps[st:en + 1])
-                if key not in saved and rng.random() < 0.6:
+                # an expression may be marked again when it is rebuilt (Metamath numbers every Z): probability 0.4
+                if (key not in saved and rng.random() < 0.6) or (key in saved and rng.random() < 0.4):
                     # only valid if the whole span was emitted literally/with reuse as one unit ending here: it was, since we
                     # never cut spans (a reuse replaces a whole span)
                     toks.append(('Z',))
-                    saved[key] = nsaved
+                    saved.setdefault(key, []).append(nsaved)
                     nsaved += 1
                     break
         i += 1
